@@ -11,7 +11,7 @@ from vf.explore import cur, choose
 from vf.effects import Patch
 from pony import orm
 from pony.orm import core
-from contracts import c13
+from contracts import c13, c12_partial as PL
 
 META = dict(
     level='other',
@@ -297,4 +297,7 @@ CONTRACTS = [
     Contract('membership_seen_from_both_ends', ['pony.orm.core:SetInstance.__contains__', 'pony.orm.core:SetInstance.add', 'pony.orm.core:SetInstance.remove', 'pony.orm.core:Set.load'],
              _pm_configs, _pm_case, [('both_ends_answer_the_same_after_link_or_unlink', _pm_post)], level='bounded',
              bound='many-to-many and one-to-many, 5 warm-up states of a partially loaded collection (incl. an earlier negative membership answer), link / unlink from either side'),
+    Contract('partly_loaded_objects', ['pony.orm.core:Attribute.__set__', 'pony.orm.core:Attribute.load', 'pony.orm.core:Attribute.update_reverse', 'pony.orm.core:Attribute.db_update_reverse',
+                                       'pony.orm.core:Entity._db_set_', 'pony.orm.core:SetInstance.add', 'pony.orm.core:SetInstance.remove'], PL.configs, PL.case,
+             [('both_ends_and_rows_agree_with_the_links_made', PL.spec)], level='bounded', bound=PL.BOUND),
 ]
